@@ -7,7 +7,7 @@ from ..models.pad import pad_axis
 
 ID = "C05"
 NEEDS_SHIM = False
-BUDGET = {"quick": 2400, "thorough": 50000}
+BUDGET = {"quick": 2400, "thorough": 150000}
 MIN_EVALS = {"quick": 2000, "thorough": 40000}
 RULE = (
     "seeded random pads on face-connected grids: link tables are (a) geometric tables of Kx x Ky faces with random D4 "
@@ -47,7 +47,7 @@ def gen_table(rng):
 
 def gen_case(rng, i, tier):
     fam, t, nf = gen_table(rng)
-    N = rng.randint(2, 5)
+    N = rng.randint(2, gen.deep(rng, tier, 5, 7, 0.15))
     m = min(3, N)
     bw = {}
     for a in "XY":
